@@ -546,7 +546,7 @@ func prepare(ec *execCtx, c *spec.Call, a *args, g *simrt.Group, mon *recMon) (b
 				oc.Detail = p.Kind
 				fn, st := moduleFrame(t.PanicStack)
 				oc.Site = fn
-				if p.Kind == "ticks" || p.Kind == "bytes" || fn == "" {
+				if p.Kind == "ticks" || p.Kind == "bytes" || p.Kind == "depth" || fn == "" {
 					// the innermost function when the total budget ran out is arbitrary; name the busiest live activation
 					oc.Site = strings.TrimPrefix(p.Fn, "internal/")
 				}
